@@ -399,11 +399,12 @@ type replayFile struct {
 	Tier     string            `json:"tier"`
 	Path     []int             `json:"path"`
 	Stack    string            `json:"stack,omitempty"`
+	Gate     []int             `json:"gate,omitempty"`
 }
 
 func writeReplayFile(file string, o Obligation, v *symexec.Violation, known []string, tier string) {
 	rf := replayFile{Property: o.Property, Pkg: o.Pkg, Func: o.Func, Kind: v.Kind, Msg: v.Msg, KnownID: v.KnownID,
-		Model: v.Model, Known: known, Tier: tier, Path: v.Path, Stack: v.Stack}
+		Model: v.Model, Known: known, Tier: tier, Path: v.Path, Stack: v.Stack, Gate: v.Gate}
 	data, _ := json.MarshalIndent(rf, "", " ")
 	os.WriteFile(file, data, 0o644)
 }
@@ -465,13 +466,23 @@ func TestVerifReplay(t *testing.T) {
 	if strings.Contains(rf.Msg, "[maporder]") || strings.Contains(rf.Func, "MapOrder") {
 		repeat = 300
 	}
-	cmd := exec.Command("go", "test", "-tags=verif", "-vet=off", fmt.Sprintf("-count=%d", repeat), "-timeout=600s", "-overlay", ovFile, "-run", "^TestVerifReplay$", "./"+rf.Pkg)
+	args := []string{"test", "-tags=verif", "-vet=off", fmt.Sprintf("-count=%d", repeat), "-timeout=600s", "-overlay", ovFile, "-run", "^TestVerifReplay$"}
+	isRace := strings.Contains(rf.Msg, "[race]")
+	if isRace {
+		args = append(args, "-race")
+	}
+	args = append(args, "./"+rf.Pkg)
+	cmd := exec.Command("go", args...)
 	cmd.Dir = repoDir
 	cmd.Env = append(os.Environ(), "GOFLAGS=-mod=mod", "GOPROXY=off", "GOSUMDB=off", "GOTOOLCHAIN=local", "VERIF_REPLAY="+file)
 	outB, _ := cmd.CombinedOutput()
 	out := string(outB)
 	status := "not-reproduced"
 	switch {
+	case isRace && strings.Contains(out, "DATA RACE"):
+		status = "confirmed"
+	case isRace:
+		status = "not-reproduced"
 	case strings.Contains(out, "VSYM-ASSUME-FAILED"):
 		status = "diverged"
 	case rf.Kind == "assert" && strings.Contains(out, "VSYM-ASSERT: "+rf.Msg):
